@@ -215,7 +215,7 @@ def top(prop, replay=None, **kw):
              replay=replay, **kw)
 
 # ===================== jwt_builder_generate (top level) =====================
-GEN_CLAUSE_PROPS = [["C14", 2], ["C03", 6], ["C10", 5], ["C13", 2], ["C17", 1]]
+GEN_CLAUSE_PROPS = [["C14", 2], ["C03", 6], ["C10", 6], ["C13", 2], ["C17", 1]]
 def gen_top(replay={"driver": "replay/r_gen.c"}):
     c = "contract_all_jwt_builder_generate"
     return U("TOP.jwt_builder_generate", "jwt_builder_generate (libjwt/jwt-common.c as jwt-builder)", common_tu("BUILDER"),
@@ -325,6 +325,9 @@ P["C11"]["units"] += [
            extra_sources=["libjwt/base64.c"], stubs=["stubs/alloc.c", "stubs/ghost.c"], defines=["VERIF_ALLOC_NEVER_FAILS"]),
 ]
 
+
+# (a structure-independent bounded unit 'every text of 264 characters with a foreign byte anywhere is rejected' was tried for seed C11-B:
+# the propositional reduction runs out of 12 GB -- symbolic strlen result, symbolic-size copy -- and was dropped; see DESIGN section 9)
 STRCMP_BOUNDED = finite("C02.bounded.jwt_strcmp_N90", "jwt_strcmp (libjwt/jwt-memory.c): every pair of strings of at most 90 characters",
     "libjwt/jwt-memory.c", "harness/strcmp_bounded.c", "h_strcmp_bounded", 92, ["h_strcmp_bounded\\.assertion\\.1"],
     defines=["STRCMP_N=90"], kind="bounded", bound="both strings <= 90 characters (loops unwound 92 times, unwinding assertions on)", timeout=900)
